@@ -120,13 +120,23 @@ pub fn tokenize(s: &str) -> Vec<String> {
 
 // ---------------------------------------------------------------- deep read
 
+pub static MISALIGNED: std::sync::atomic::AtomicBool = std::sync::atomic::AtomicBool::new(false);
+
+/// records where a reachable reference points (relative to `base`) and whether it is aligned for its type
+pub fn note<T: ?Sized>(x: &T, base: usize, o: &mut Vec<(usize, usize)>) {
+    let p = x as *const T as *const u8 as usize;
+    if p % std::mem::align_of_val(x) != 0 {
+        MISALIGNED.store(true, std::sync::atomic::Ordering::SeqCst);
+    }
+    o.push((p.wrapping_sub(base), std::mem::size_of_val(x)));
+}
+
 /// Reads everything reachable through the public accessors and prints it canonically.
 pub trait DeepRead {
     fn deep(&self, o: &mut String);
     /// offsets (relative to `base`) of every node in pre-order, with the bytes it may touch
     fn addrs(&self, base: usize, o: &mut Vec<(usize, usize)>) {
-        let p = self as *const Self as *const u8 as usize;
-        o.push((p.wrapping_sub(base), std::mem::size_of_val(self)));
+        note(self, base, o);
     }
     /// applies an in-place container operation (histories of C11-C14); "bad" when not applicable
     fn hop(&mut self, _op: &HOp) -> String {
@@ -373,8 +383,7 @@ impl<T: DeepRead, const N: usize> DeepRead for [T; N] {
         o.push(')');
     }
     fn addrs(&self, base: usize, o: &mut Vec<(usize, usize)>) {
-        let p = self as *const Self as *const u8 as usize;
-        o.push((p.wrapping_sub(base), std::mem::size_of_val(self)));
+        note(self, base, o);
         for x in self.iter() {
             x.addrs(base, o);
         }
@@ -411,8 +420,7 @@ impl<T: DeepRead + FromSpec + Clone + Flat + Sized, L: Flat + Length> DeepRead f
         o.push(')');
     }
     fn addrs(&self, base: usize, o: &mut Vec<(usize, usize)>) {
-        let p = self as *const Self as *const u8 as usize;
-        o.push((p.wrapping_sub(base), std::mem::size_of_val(self)));
+        note(self, base, o);
         for x in self.as_slice().iter() {
             x.addrs(base, o);
         }
@@ -535,8 +543,7 @@ where
         o.push(')');
     }
     fn addrs(&self, base: usize, o: &mut Vec<(usize, usize)>) {
-        let p = self as *const Self as *const u8 as usize;
-        o.push((p.wrapping_sub(base), std::mem::size_of_val(self)));
+        note(self, base, o);
         for x in self.iter() {
             x.addrs(base, o);
         }
@@ -729,6 +736,7 @@ fn map_obs<T: Probe + ?Sized>(arena: &Arena) -> String {
     // everything reachable lies inside the slice
     let inside = guarded(|| {
         let mut v = Vec::new();
+        MISALIGNED.store(false, std::sync::atomic::Ordering::SeqCst);
         x.addrs(arena.base(), &mut v);
         let mut s = String::new();
         let mut ok = true;
@@ -738,7 +746,8 @@ fn map_obs<T: Probe + ?Sized>(arena: &Arena) -> String {
             }
             write!(s, "{}+{},", off, len).unwrap();
         }
-        format!("{} addrs={}", if ok { "ok" } else { "OUTSIDE" }, s)
+        let mis = MISALIGNED.load(std::sync::atomic::Ordering::SeqCst);
+        format!("{} addrs={}", if mis { "MISALIGNED" } else if ok { "ok" } else { "OUTSIDE" }, s)
     });
     write!(o, " inside={}", inside).unwrap();
     o
@@ -917,9 +926,28 @@ fn hist_obs<T: Probe + ?Sized>(a: &Arena) -> String {
     write!(o, " val={} ", val).unwrap();
     if val == "ok" {
         let x = unsafe { T::from_bytes_unchecked(bytes) };
-        write!(o, "view={} size={}", deep_s(x), guarded(|| format!("ok:{}", x.size()))).unwrap();
+        let view = deep_s(x);
+        write!(o, "view={} size={}", view, guarded(|| format!("ok:{}", x.size()))).unwrap();
+        // truncate to size(): must map again to the same content
+        let tv = guarded(|| {
+            let n = x.size();
+            if n > bytes.len() {
+                return "-".into();
+            }
+            match T::from_bytes(&bytes[..n]) {
+                Ok(y) => {
+                    if strip_caps(&deep_s(y)) == strip_caps(&view) && y.size() == n {
+                        "ok".into()
+                    } else {
+                        "DIFFERENT".into()
+                    }
+                }
+                Err(e) => kind_s(&e),
+            }
+        });
+        write!(o, " tv={}", tv).unwrap();
     } else {
-        o.push_str("view=- size=-");
+        o.push_str("view=- size=- tv=-");
     }
     write!(o, " buf={}", bytes_to_hex(bytes)).unwrap();
     o
